@@ -15,7 +15,12 @@ ADHOC = "tx3_tir::model::v1beta0::AdHocDirective"
 def _tuple_keys(F, f):
     """constant first components of 2-tuples built in f (and its closures)"""
     keys = set()
-    for b in with_closures(F, f):
+
+    def _want(t, callee):
+        # small helpers of the lowering that build the (key, value) pair from a key they are given: `lower_keyed(ctx, "to", x)`
+        return callee["crate"] == f["crate"] and not callee.get("impl_trait") and not callee.get("trait_default") and len(callee["blocks"]) <= 40
+    for b0 in with_closures(F, f):
+        b = mir.inline_calls(F, b0, want=_want, depth=2)
         du = mir.DefUse(b)
         for bi, si, s in mir.stmts(b):
             rv = s["rv"]
@@ -60,10 +65,21 @@ def producers(F):
                     if len(cn) != 1:
                         resolved_all = False
                         continue
-                    keys = set(_tuple_keys(F, f))
+                    keys = set(_tuple_keys(F, f)) | set(_tuple_keys(F, caller))
                     for ga in ct.get("gargs") or []:
                         if ga in pair_impls0:
                             keys |= _tuple_keys(F, pair_impls0[ga])
+                    # the data map may come from another helper of the caller, instantiated with the field enum
+                    # (`lower_fields::<PublishField>(ctx, &self.fields)` next to `directive("cardano_publish", data)`), or from
+                    # the field enum's into_lower called directly in the caller's closures
+                    for cb in with_closures(F, caller):
+                        for _, t2 in mir.calls(cb):
+                            for ga in t2.get("gargs") or []:
+                                if ga in pair_impls0:
+                                    keys |= _tuple_keys(F, pair_impls0[ga])
+                            r2 = t2.get("resolved") or ""
+                            if r2 in F.fns and F.fns[r2].get("impl_self") in pair_impls0 and F.fns[r2].get("name") == "into_lower":
+                                keys |= _tuple_keys(F, F.fns[r2])
                     ent = out.setdefault(cn.pop(), {"keys": set(), "fn": caller["path"], "line": ct["line"], "file": caller["file"]})
                     ent["keys"] |= keys
                 if resolved_all and callers_index(F).get(f["path"]):
